@@ -22,7 +22,7 @@ NOTE = ("Trusted: CBMC 6.11, the GMP payload model (model/gmp_model.c), log/IO s
 
 CHECKS = [
     chk("C01", "proof",
-        "Gating half: QSexact_solver (+ the real QSexact_basis_status) can return rval 0 with status OPTIMAL only after QSexact_optimal_test accepted exactly the vectors that are handed out; the 12-step precision ladder is completely unwound (compile-time bound re-read from exact.h, unwinding assertions on), callees outside exact.c are nondeterministic stubs.",
+        "Gating half: QSexact_solver (+ the real QSexact_basis_status) can return rval 0 with status OPTIMAL only after QSexact_optimal_test accepted exactly the vectors that are handed out; the 12-step precision ladder is completely unwound (compile-time bound re-read from exact.h, unwinding assertions on), callees outside exact.c are nondeterministic stubs. Also: the accessor chain that serves the certified vectors (ILLlib_solution cache branch under loop contracts, qsopt.c accessor wrappers), the copy-out functions optimal_output / infeasible_output, the checker QSexact_optimal_test as a bounded group (1x1 quick; larger in thorough) with a lossy mpq_get_d, and the objective-value formulas ILLfct_compute_pobj / compute_dobj in exact arithmetic (bounded 2x2).",
         NOTE + "Not decided: the direct rational simplex entry points (their OPTIMAL is simplex correctness); the checker QSexact_optimal_test itself is only covered where its own group is listed in the evidence.",
         TECH, "DESIGN.md 4/C01"),
     chk("C02", "proof",
@@ -30,34 +30,34 @@ CHECKS = [
         NOTE + "Not decided: that ILLsimplex_infcertificate produces a ray that passes (completeness).",
         TECH, "DESIGN.md 4/C02"),
     chk("C05", "proof",
-        "Invalidation half: every public edit wrapper of qsopt.c under contract: success drops the cached solution and marks the problem modified (I1), success of a matrix/dimension edit clears the factorization flag (I2), failure leaves cache/status/flag/basis untouched (I3); unbounded (loop-free) modular proofs with the library callee as a nondeterministic stub.",
+        "Invalidation half: every public edit wrapper of qsopt.c under contract: success drops the cached solution and marks the problem modified (I1), success of a matrix/dimension edit clears the factorization flag (I2), failure leaves cache/status/flag/basis untouched (I3); unbounded (loop-free) modular proofs with the library callee as a nondeterministic stub. Also: the solve entry points QSopt_primal / QSopt_dual / opt_work (a solve re-reads the problem unless the factorization flag is set), the accessor wrappers (a modified problem serves no solution), ILLlib_chgsense / chgrange / delrows updating every dependent field (bounded).",
         NOTE + "Not decided: 'the next solve equals a from-scratch solve' (solver correctness).",
         TECH, "DESIGN.md 4/C05"),
     chk("C06", "proof",
-        "Queries and single-entry edits of lib.c under contract at ghost indices (stored value is the value returned / the value given); unbounded where the loop does not read through an index map, otherwise map length capped (stated per group).",
+        "Queries and single-entry edits of lib.c under contract at ghost indices (stored value is the value returned / the value given); unbounded where the loop does not read through an index map, otherwise map length capped (stated per group). Relocating and multi-entry edits as bounded groups against a dense reference view: ILLlib_chgcoef / getcoef (2-3 columns), ILLlib_delrows / delcols, ILLlib_chgsense / chgrange, ILLlib_addrow, and the symbol table (register / delete / lookup / index map) on fixed operation scenarios.",
         NOTE, TECH, "DESIGN.md 4/C06"),
     chk("C07", "proof",
         "Modular proofs (CBMC dfcc contract enforcement, symbolic array sizes up to 30000) that the functions under contract reject invalid arguments with a non-zero code and an empty frame (conditional assigns), with all pointer/bounds/overflow checks discharged.",
         NOTE, TECH, "DESIGN.md 4/C07"),
     chk("C10", "other",
-        "Bounded contract check of the exact literal scanner mpq_EGlpNumReadStrXc and of ILLget_value on CONSTRUCTED well-formed literals (integers, decimals, exponent forms, signed, fractions p/q of such numbers): the whole literal is consumed and the value is exactly the rational it spells (computed independently by integer arithmetic); omitted coefficient is 1; a zero divisor is rejected. Bounds (digits, exponent) stated per group.",
-        NOTE + "Not decided: grammar-level rules (keyword spellings, comments, line structure, sections), default-bound rules and repeated-term merging unless a group for them is listed in the evidence; digit counts beyond the stated bound.",
+        "Bounded contract check of the exact literal scanner mpq_EGlpNumReadStrXc and of ILLget_value on CONSTRUCTED well-formed literals (integers, decimals, exponent forms, signed, fractions p/q of such numbers): the whole literal is consumed and the value is exactly the rational it spells (computed independently by integer arithmetic); omitted coefficient is 1; a zero divisor is rejected. Bounds (digits, exponent) stated per group. Also bounded groups for value-level rules above the scanner: infinity spellings of bound values (LP and MPS), the MPS BOUNDS table with the implicit-bound rules (mps_set_bound, ILLraw_set_*, ILLraw_fill_in_bounds) against an independent reference, the MPS RANGES interpretation (transferRanges) and 'repeated terms add up' for the objective (transferObjective), the last two in exact integer arithmetic.",
+        NOTE + "Not decided: grammar-level rules (keyword spellings, comments, line structure, sections), repeated-term merging in constraint rows (buildMatrix: symbolic-size allocations exhaust the solver), the LP-format bound section parser, digit counts beyond the stated bound.",
         TECH, "DESIGN.md 4/C10"),
     chk("C11", "other",
-        "Per-function bounded contract checks of reader functions for every byte content of their (capacity-reduced) buffers: the literal scanner on arbitrary short strings (no division by zero, no out-of-bounds read), the three error formatters for every formatted length (no write outside the 256-byte buffer, error reaches the collector), next_line progress (consumes a line or sets eof).",
-        NOTE + "Not decided: whole-file behaviour, compressed streams, reader functions not listed in the evidence; buffer capacity ILL_namebufsize is reduced from 131072 to 512 in the scratch copy for these groups (one #define line, must-fire).",
+        "Per-function bounded contract checks of reader functions for every byte content of their (capacity-reduced) buffers: the literal scanner on arbitrary short strings (no division by zero, no out-of-bounds read), the three error formatters for every formatted length (no write outside the 256-byte buffer, error reaches the collector), next_line progress (consumes a line or sets eof). Also: twelve character-level scanners of the LP reader and five of the MPS reader on every line content of at most 4 bytes with arbitrary stale bytes behind the terminator (the cursor stays inside the line text; fields are terminated), the basis-file reader ILLlib_readbasis on every sequence of at most 4 records, transferRanges on N rows, the symbol table scenarios.",
+        NOTE + "Not decided: whole-file behaviour, compressed streams, reader functions not listed in the evidence; buffer capacity ILL_namebufsize is reduced from 131072 to 512 (16 for the character-level scanner groups) in the scratch copy for these groups (one #define line, must-fire); the section state machine of the MPS / LP parsers (mps.c read_mps_section / read_mps_line_in_section, lp.c) is not under contract.",
         TECH, "DESIGN.md 4/C11"),
     chk("C12", "other",
-        "Verdict/plumbing layer only. (i) the exact verdict loops ILLfct_check_dfeasible / ILLfct_check_pfeasible under contract with inductive loop invariants (dfcc): FEASIBLE is answered only if no position violates the sign / bound condition (stated at a ghost position; position map capped at 64 entries); (ii) bounded contract checks of ILLbasis_load (status codes -> internal vstat/baz/nbaz/vindex, one basic variable per row position) and of QSload_basis / QSload_basis_array (well-formed bases accepted and stored entry by entry).",
-        NOTE + "Not decided: that the exact basic solution of a basis (B^-1 b, computed by the LU code) is what the verdict functions evaluate -- simplex/LU are out of reach (see C13); the 'infeasible => some position violates' direction of the verdict loops (existential), QSexact_basis_* wrappers unless listed in the evidence.",
+        "Verdict/plumbing layer only. (i) the exact verdict loops ILLfct_check_dfeasible / ILLfct_check_pfeasible under contract with inductive loop invariants (dfcc): FEASIBLE is answered only if no position violates the sign / bound condition (stated at a ghost position; position map capped at 64 entries); (ii) bounded contract checks of ILLbasis_load (status codes -> internal vstat/baz/nbaz/vindex, one basic variable per row position) and of QSload_basis / QSload_basis_array (well-formed bases accepted and stored entry by entry). (iii) ILLfct_compute_dz against its definition in exact arithmetic (bounded 2x2); (iv) ILLlib_getbasis under loop contracts (every returned status is the solver's status, through the column / row maps; maps capped at 64); (v) the plumbing of QSexact_basis_optimalstatus / QSexact_basis_dualstatus (basic solution recomputed for the basis under test, checks with tolerance zero, verdict taken from the flags), callees as arbitrary-result stubs.",
+        NOTE + "Not decided: that the exact basic solution of a basis (B^-1 b, computed by the LU code) is what the verdict functions evaluate -- simplex/LU are out of reach (see C13); the 'infeasible => some position violates' direction of the verdict loops (existential); QSexact_verify.",
         TECH, "DESIGN.md 4/C12"),
     chk("C13", "other",
         "Extraction/ordering layer ONLY: bounded contract checks (2x2, arbitrary column bijection) that ILLlib_tableau hands out the requested inverse row in row order and the tableau row in external column order (structural j from internal column structmap[j], row i's logical from rowmap[i]) and that ILLlib_basis_order reports the external index of each basic column; loop-free proofs that QSget_binv_row / QSget_tableau_row / QSget_basis_order fail without a cached solution (basis, index range) and compute nothing then.",
         NOTE + "NOT decided: the LU arithmetic itself -- ILLfactor, ftran/btran, ILLfactor_update, ILLbasis_tableau_row (B^-1 B = I for every update history, singular matrices reported): these are stubs here; a change inside factor.c is not detected by this check.",
         TECH, "DESIGN.md 4/C13"),
     chk("C14", "proof",
-        "Frame half ('writing does not consume the basis'): QSwrite_basis under contract with an empty assigns/frees clause on everything reachable from the problem (dfcc, loop contracts, symbolic basis sizes up to 30000) -- unbounded.  Round-trip half, bounded (nstruct, nrows <= 3): the real ILLlib_writebasis emits exactly enc(B) (k-th non-basic row paired with the k-th basic column, then UL records) and the real ILLlib_readbasis fed enc(B) returns B up to the documented lower<->free convention, both against ONE record-level specification of the file.",
-        NOTE + "Not decided: the text layer of the basis file (EGioPrintf formatting, MPS line tokenising, name lookup) is replaced by a record stream in the round-trip groups; ILLlib_getbasis (internal status -> codes).",
+        "Frame half ('writing does not consume the basis'): QSwrite_basis under contract with an empty assigns/frees clause on everything reachable from the problem (dfcc, loop contracts, symbolic basis sizes up to 30000) -- unbounded.  Round-trip half, bounded (nstruct, nrows <= 3): the real ILLlib_writebasis emits exactly enc(B) (k-th non-basic row paired with the k-th basic column, then UL records) and the real ILLlib_readbasis fed enc(B) returns B up to the documented lower<->free convention, both against ONE record-level specification of the file. ILLlib_getbasis (internal status -> codes) under loop contracts.",
+        NOTE + "Not decided: the text layer of the basis file (EGioPrintf formatting, MPS line tokenising, name lookup) is replaced by a record stream in the round-trip groups.",
         TECH, "DESIGN.md 4/C14"),
     chk("C16", "other",
         "Bounded contract check of QScopy_prob (nstruct <= 3, loops completely unwound, everything else symbolic): independent (no pointer member of the copy's pricing info equals the source's, source untouched) and faithful (rows handed over in one block, k-th column receives the k-th structural column's entries, objective, bounds, name, integer mark; sense, display/scaling, pricing rules copied).",
@@ -68,7 +68,7 @@ CHECKS = [
         NOTE + "Not decided: safety of functions not under contract (simplex, pricing, LU, presolve, writers, most of the readers), uninitialised-value flow through them, whole call sequences beyond what the well-formedness preconditions carry, and bit-identical reproducibility across processes (a property of two executions).",
         TECH, "DESIGN.md 4/C17"),
     chk("C18", "other",
-        "Bounded contract checks of object life cycles with CBMC's memory-leak check and a GMP model in which every initialised number owns a heap token: error memory create/add/free, solution cache alloc/free, basis alloc/export/free, QSread_and_load_basis on a problem that owns a basis, QSexact_basis_status discarding the stale cache (loop-free, callees stubbed), the output stream of QSwrite_prob closed exactly once, QSwrite_basis frees only its local conversion. Allocation failure is explored (malloc may return NULL).",
+        "Bounded contract checks of object life cycles with CBMC's memory-leak check and a GMP model in which every initialised number owns a heap token: error memory create/add/free, solution cache alloc/free, basis alloc/export/free, QSread_and_load_basis on a problem that owns a basis, QSexact_basis_status discarding the stale cache (loop-free, callees stubbed), the output stream of QSwrite_prob closed exactly once, QSwrite_basis frees only its local conversion. Allocation failure is explored (malloc may return NULL). Also: the reader's intermediate problem (ILLfree_rawlpdata with the real pointer-world allocator, chunk capacity reduced), the basis-file reader on rejected files, QSexact_solver releasing every basis obtained during the precision ladder, QSexact_basis_optimalstatus / dualstatus releasing the stale cache.",
         NOTE + "Not decided: leaks inside functions not listed in the evidence (QScreate_prob/QSfree_prob over a populated problem, readers' parse-error paths, simplex, LU), the EGlib slab pool, GMP's own allocator.",
         TECH, "DESIGN.md 4/C18"),
     chk("C19", "other",
